@@ -213,6 +213,30 @@ CHECKS = {
         note='Trusted: CrossHair/z3, the stand-ins. Interleavings are at call granularity as the property states.',
         technique='CrossHair symbolic execution of the real Python functions with logging I/O stand-ins',
         design_ref='DESIGN.md section 4 C20'),
+    'C09': dict(
+        level='other',
+        text='Claimed by reduction, not by schedule exploration: free-running two-process schedules are not enumerated. The property is reduced '
+             'to premises under which the schedule does not matter, each decided by a solver on the real code: (i) on every prefix of every '
+             'write-path trace (E-LL, see C02) the set of finalized files only grows, each is complete and never touched again, a finalized '
+             'name is never created or renamed over even when files of earlier sessions exist; (ii) CrossHair confirms that a reader pass '
+             'opens only files readable at that moment, skips vanished / unreadable ones without raising (reads, bounds, listings with a '
+             'vanishing subdirectory) and returns exactly the blocks of the files it opened; (iii) z3 regex emptiness: tmp. names are outside '
+             'every reader / lister grammar. Hence any reader pass returns Blocks(F) for some F_before <= F <= F_after, monotone in time.',
+        note='Trusted: the reduction argument itself, atomic rename, H5Fclose completing the file, z3, CrossHair, stubs.',
+        technique='reduction to protocol obligations (symbolic execution of LLVM IR, z3) + CrossHair on the reader + z3 regex emptiness',
+        design_ref='DESIGN.md section 4 C09'),
+    'C11': dict(
+        level='model_checking',
+        text='digital_rf_handle_metadata (verify branch) is executed from IR with all 12 stored attributes and all writer parameters symbolic: the '
+             'session is accepted iff all are equal, any mismatch refuses it, and no mutating operation is issued either way. The write path is '
+             'executed on a channel where the existence of every finalized file name is an arbitrary boolean: a data file is created only if '
+             'its final name was seen absent, a tmp file is renamed only onto that name, a write needing a finalized period is rejected '
+             'without a fatal failure and later free periods stay writable. CrossHair confirms the reader merge across top-level directories '
+             '(bounds = min/max over directories with data; one read accumulates all directories; adjacent blocks merge). A real two-session '
+             'recording validates refusal, unchanged bytes, continued usability and parameter mismatch.',
+        note='Trusted: z3, IR executor, stubs (H5F_ACC_EXCL on the tmp name), CrossHair.',
+        technique='symbolic execution of LLVM IR to SMT (z3) with symbolic file-system state + CrossHair on the reader',
+        design_ref='DESIGN.md section 4 C11'),
 }
 
 NOT_YET = 'check not built yet in this revision of /verif (planned, see DESIGN.md section 4)'
